@@ -27,6 +27,10 @@ def plan(prop, tier, seed):
     sh += [{"engine": "cache", "kind": "hist", "n": 80 if q else 1500, "ops": 150, "shard": i} for i in range(6 if q else 16)]
     sh += [{"engine": "cache", "kind": "bfs", "depth": 4 if q else 6, "cfgi": i, "shard": i, "acct": True} for i in (1, 2, 6, 7)]
     sh += [{"kind": "simcfg", "n": 120 if q else 2500, "shard": i} for i in range(3 if q else 8)]
+    # histories in which NOTHING is read between the accesses (a policy may not depend on being looked at), and the
+    # generic Cache driven directly through its public read_block / write_block
+    sh += [{"kind": "blind", "n": 300 if q else 6000, "shard": i} for i in range(2 if q else 6)]
+    sh += [{"kind": "rawcache", "n": 150 if q else 3000, "shard": i} for i in range(2 if q else 6)]
     return sh
 
 
@@ -192,6 +196,12 @@ def run_case(prop, case, res):
     if case.get("kind") == "simcfg":
         run_simcfg_case(case, res)
         return
+    if case.get("kind") == "blind":
+        run_blind_case(case, res)
+        return
+    if case.get("kind") == "rawcache":
+        run_rawcache_case(case, res)
+        return
     policy, assoc = case["policy"], case["assoc"]
     real, ref = make(policy, assoc)
     path = case.get("path", [])
@@ -200,6 +210,107 @@ def run_case(prop, case, res):
         ref.access(i)
         if not check_after(real, ref, policy, assoc, i, res, {"kind": "path", "policy": policy, "assoc": assoc, "path": path[: n + 1]}):
             return
+
+
+def run_blind_case(case, res):
+    """real policy object: bursts of accesses with no read of any kind in between; only at the end of a burst the
+    victim (and for LRU the reported order) is compared with the reference"""
+    policy, assoc = case["policy"], case["assoc"]
+    real, ref = make(policy, assoc)
+    for bi, burst in enumerate(case["bursts"]):
+        for i in burst:
+            real.access(i)
+            ref.access(i)
+            res.count("blind_accesses")
+        res.count("blind_bursts_checked")
+        v, w = real.get_next_to_replace(), ref.victim()
+        if v != w:
+            res.violation("C10", "victim", "%s(%d) after %d unobserved accesses %s (burst %d): get_next_to_replace()=%r, reference victim=%r" % (policy, assoc, len(burst), burst[-12:], bi, v, w), case)
+            return
+        if policy == "lru":
+            rp = real.get_repr()
+            rk = ref.ranks()
+            if len(set(rp)) != assoc or sorted(range(assoc), key=lambda b: rp[b]) != sorted(range(assoc), key=lambda b: rk[b]):
+                res.violation("C10", "lru-age-order", "LRU(%d) after %d unobserved accesses (burst %d): reported ages %r, reference order (oldest first) %r" % (assoc, len(burst), bi, rp, sorted(range(assoc), key=lambda b: rk[b])), case)
+                return
+    res.nontrivial(h64(case))
+
+
+def gen_blind_case(rng):
+    policy = rng.choice(["lru", "lru", "plru"])
+    assoc = rng.choice([2, 4, 8, 16] if policy == "plru" else [2, 3, 4, 5, 6, 8, 12])
+    bursts = []
+    for _ in range(rng.randint(1, 6)):
+        hot = rng.sample(range(assoc), rng.randint(1, assoc))
+        bursts.append([rng.choice(hot) if rng.random() < 0.8 else rng.randrange(assoc) for _ in range(rng.randint(1, 4 * assoc))])
+    return {"kind": "blind", "policy": policy, "assoc": assoc, "bursts": bursts}
+
+
+def run_rawcache_case(case, res):
+    """the generic Cache driven directly through its public read_block / write_block (a write to a resident block is
+    an access like any other); observed through get_repr() only every few operations"""
+    from architecture_simulator.uarch.memory.cache import Cache
+    from architecture_simulator.uarch.memory.decoded_address import DecodedAddress
+    from architecture_simulator.uarch.memory.replacement_strategies import LRU, PLRU
+    from ..refmodels.policies import make_policy
+
+    ib, bb, assoc, policy = case["ib"], case["bb"], case["assoc"], case["policy"]
+    c = Cache(ib, bb, assoc, LRU if policy == "lru" else PLRU)
+    pols = [make_policy(policy, assoc) for _ in range(1 << ib)]
+    tags = [[None] * assoc for _ in range(1 << ib)]  # reference residency, way by way
+    nw = 1 << bb
+    for n, (op, addr, look) in enumerate(case["ops"]):
+        blk = addr >> (2 + bb)
+        sidx, tag = blk & ((1 << ib) - 1), blk >> ib
+        da = DecodedAddress(ib, bb, addr)
+        res.count("rawcache_ops")
+        if op == "r":
+            got = c.read_block(da)
+            if (got is not None) != (tag in tags[sidx]):
+                res.violation("C10", "rawcache-residency", "op #%d read_block(%#x): %s, reference says the block is %s" % (n, addr, "hit" if got is not None else "miss", "resident" if tag in tags[sidx] else "absent"), case)
+                return
+            if got is not None:
+                pols[sidx].access(tags[sidx].index(tag))
+        else:
+            c.write_block(da, [n] * nw)
+            if tag in tags[sidx]:
+                pols[sidx].access(tags[sidx].index(tag))
+                res.count("rawcache_write_hits")
+            else:
+                v = pols[sidx].victim()
+                tags[sidx][v] = tag
+                pols[sidx].access(v)
+        if look:
+            res.count("rawcache_looks")
+            cr = c.get_repr()
+            real_tags = [[int(b.tag, 16) if b.valid_bit == "1" else None for b in s_.blocks] for s_ in cr.sets]
+            if real_tags != tags:
+                res.violation("C10", "displaced-way", "op #%d %s %#x: resident tags by way %r, reference (victims chosen by the %s reference for this access history) %r" % (n, op, addr, real_tags, policy, tags), case)
+                return
+            if policy == "lru":
+                from .cache import lru_age_mismatch
+
+                m_ = lru_age_mismatch(cr, pols)
+                if m_:
+                    res.violation("C10", "lru-age-order", "op #%d %s %#x: %s" % (n, op, addr, m_), case)
+                    return
+    res.nontrivial(h64(case))
+
+
+def gen_rawcache_case(rng):
+    policy = rng.choice(["lru", "plru"])
+    ib, bb = rng.choice([0, 0, 1]), rng.choice([0, 1])
+    assoc = rng.choice([2, 4, 8] if policy == "plru" else [2, 3, 4, 5, 8])
+    nb = assoc + rng.randint(1, 3)
+    blocks = [0x4000 + (k << (2 + bb + ib)) + (s_ << (2 + bb)) for k in range(nb) for s_ in range(1 << ib)]
+    dense = rng.random() < 0.5
+    ops = []
+    for _ in range(rng.randint(10, 80)):
+        hot = rng.random() < 0.7
+        a = rng.choice(blocks[: max(2, assoc)] if hot else blocks)
+        ops.append([rng.choice(["r", "w", "w"]), a, rng.random() < (0.8 if dense else 0.08)])
+    ops[-1][2] = True
+    return {"kind": "rawcache", "ib": ib, "bb": bb, "assoc": assoc, "policy": policy, "ops": ops}
 
 
 def gen_simcfg_case(rng):
@@ -226,6 +337,17 @@ def gen_simcfg_case(rng):
 def run_shard(spec, res):
     if spec["kind"] == "bfs":
         run_bfs(spec, res)
+        return
+    if spec["kind"] in ("blind", "rawcache"):
+        from ..common import guarded
+
+        rng = rng_for("C10", spec["tier"], spec["seed"], spec["kind"], spec["shard"])
+        for it in range(spec["n"]):
+            case = gen_blind_case(rng) if spec["kind"] == "blind" else gen_rawcache_case(rng)
+            guarded(run_case, "C10", case, res)
+            res.evaluations += 1
+            if it < 1:
+                res.sample(case, 20)
         return
     if spec["kind"] == "simcfg":
         from ..common import guarded
